@@ -16,6 +16,12 @@ open WV WV.C05
 theorem skeleton_agrees : ∀ m ∈ WV.Gen.Recv.methods, modelCalls m = WV.Gen.Recv.calls m := by
   decide
 
+/-- **the working directory is the process' working directory.**  `cli.Config.__init__` is still the
+    single assignment `self.cwd = os.getcwd()` (read off the source by the translator): the `cwd` of
+    every theorem below is the directory the receiver actually runs in, not something taken from the
+    environment (`$PWD`, …).  `configCwd` in the model is justified only while this holds. -/
+theorem config_cwd_is_process_cwd : WV.Gen.Recv.config_cwd_is_os_getcwd = true := by decide
+
 /-- what is assumed about the working directory: it is what `os.getcwd()` returns (absolute,
     normalised, not the root), and it and its parent exist -/
 structure CwdOK (fs : FS) (a : Args) : Prop where
@@ -41,6 +47,16 @@ theorem dest_is_child (fs : FS) (a : Args) (name : Path) (h : CwdOK fs a) (hno :
       exact ⟨hn, hex', by simp [hex']⟩
   · left; rw [e, h.norm.fix]; simp [h.exists_cwd]
   · left; rw [e]; simp [h.exists_parent]
+
+/-- `dest_is_child` for the arguments the real entry point builds: whatever `$PWD` says, the
+    destination is a fresh child of the directory the process runs in -/
+theorem dest_is_child_of_process_cwd (fs : FS) (proc envPWD : Path) (acc : Bool) (ans name : Path)
+    (hn : Norm proc) (h1 : fs.pathExists proc = true)
+    (h2 : fs.pathExists (abspath proc (join2 proc dotdot)) = true) :
+    decideDest fs (entryArgs proc envPWD [] acc ans) name = (fs, .error .transferRejected) ∨
+    (IsName (basename name) ∧ fs.pathExists (proc ++ '/' :: basename name) = false ∧
+      decideDest fs (entryArgs proc envPWD [] acc ans) name = (fs, .ok (proc ++ '/' :: basename name))) :=
+  dest_is_child fs (entryArgs proc envPWD [] acc ans) name ⟨hn, h1, h2⟩ rfl
 
 /-- the decided destination is again a normal absolute path (so `extract_inside` applies to it) -/
 theorem dest_is_normal (fs : FS) (a : Args) (name : Path) (h : CwdOK fs a) (hno : a.outputFile = [])
